@@ -167,7 +167,9 @@ def build_witnesses(tier: str) -> List[Witness]:
             W.append(_mk("transparent_%s_%s" % (nm, d), "transparent on a variant without exactly one field", d,
                          enum_for(d, "    #[strum(transparent)]\n    Alpha%s,\n    Beta," % f_), enum_for(d, "    #[strum(transparent)]\n    Alpha(Inner),\n    Beta,")))
     # 10. placeholders on a unit variant
-    for nm, lit in (("index", "x{0}"), ("name", "x{a}"), ("spec", "{0:>4}")):
+    for nm, lit in (("index", "x{0}"), ("name", "x{a}"), ("spec", "{0:>4}"),
+                    # text of more than one byte per character around the placeholder (offsets are byte offsets)
+                    ("utf8_quotes", "\u201c{0}\u201d"), ("utf8_prefix", "\u6e29\u5ea6{t}"), ("utf8_suffix", "{0}\u00e9\u00e9"), ("utf8_both", "\u2192{x}\u2190 \u00df{0:>3}")):
         W.append(_mk("placeholder_unit_" + nm, "placeholders on a unit variant", "Display",
                      enum_for("Display", '    #[strum(to_string = "%s")]\n    Alpha,\n    Beta,' % lit), enum_for("Display", '    #[strum(to_string = "x{{0}}")]\n    Alpha,\n    Beta,')))
     # 11. unknown serialize_all style
